@@ -92,6 +92,10 @@ def corpus():
         P[f"loop-inside-outer-body-nested-handler-{kw}"] = prog(
             {"Top": [("try", [("repeat", 2, [T("b1"), ("try", [T("b2")], [("ci", [T("ih"), (kw,)])]), T("b3")]), ("loop", [T("rest")])],
                       [("co", [T("oh")])])]}, conds=["ci", "co"])
+    # a nested statement with more handlers than the enclosing one
+    P["nested-try-with-more-handlers-than-the-outer"] = prog(
+        {"Top": [("try", [T("b0"), ("try", [("loop", [T("ib")])], [("c1", [T("h1"), ("return",)]), ("c2", [T("h2a"), T("h2b")]), ("c3", [T("h3")])])],
+                  [("c0", [T("oh"), ("abort",)])]), ("loop", [T("after")])]}, conds=["c0", "c1", "c2", "c3"])
     # abandoned sub-behaviours are stopped: the same behaviour object can be invoked again
     P["abandoned-sub-object-reinvoked-after-abort"] = prog(
         {"Sub": [T("s1"), T("s2"), T("s3")],
@@ -272,7 +276,7 @@ def gen_program(rnd, tag):
             body.append(("abort",))
         elif k < 0.40 and in_loop:
             body.append((rnd.choice(["break", "continue"]),))
-        elif k < 0.48:
+        elif k < 0.55:
             body.append(("return",))
         return body
 
